@@ -74,24 +74,32 @@ Proof. intros -> ->. apply bm_rd_app. Qed.
 Lemma dec_enc_u16s vals : Forall (fun v => v < 65536) vals -> bm_dec_u16s (bm_enc_u16s vals) = vals.
 Proof.
   induction 1 as [|v t Hv _ IH]; [reflexivity|].
-  unfold bm_enc_u16s in *. cbn [flat_map le_bytes app bm_dec_u16s]. rewrite IH. f_equal. lia.
+  unfold bm_enc_u16s in *. cbn [flat_map].
+  change (le_bytes 2 v) with [v mod 256; (v / 256) mod 256]. cbn [app bm_dec_u16s]. rewrite IH. f_equal. lia.
 Qed.
 
 Lemma enc_u16s_len vals : bm_lenN (bm_enc_u16s vals) = 2 * bm_lenN vals.
 Proof.
   unfold bm_lenN. induction vals as [|v t IH]; [reflexivity|].
-  unfold bm_enc_u16s in *. cbn [flat_map le_bytes app length]. lia.
+  unfold bm_enc_u16s in *. cbn [flat_map length]. rewrite app_length, length_le_bytes. lia.
 Qed.
 
 Lemma ascending_sorted vals : sorted vals -> bm_ascending vals = true.
 Proof.
   induction 1 as [|a l S IH F]; [reflexivity|].
-  destruct l as [|b t]; [reflexivity|]. cbn [bm_ascending]. rewrite IH.
+  destruct l as [|b t]; [reflexivity|].
+  change (bm_ascending (a :: b :: t)) with ((a <? b) && bm_ascending (b :: t)). rewrite IH.
   inversion F; subst. replace (a <? b) with true by lia. reflexivity.
 Qed.
 
 Lemma of_le_4 c : c < 4294967296 -> of_le (le_bytes 4 c) = c.
 Proof. intro H. rewrite of_le_le_bytes. change (256 ^ N.of_nat 4) with 4294967296. apply N.mod_small. exact H. Qed.
+
+Lemma flat_map_ext_in' {A B} (f g : A -> list B) l : (forall a, In a l -> f a = g a) -> flat_map f l = flat_map g l.
+Proof.
+  induction l as [|a t IH]; intro H; [reflexivity|]. cbn [flat_map].
+  rewrite (H a (or_introl eq_refl)), IH; [reflexivity|]. intros b Hb. apply H. right. exact Hb.
+Qed.
 
 (* the bytes 0..8191 of a bitmap container determine its members and their number *)
 Lemma mget_of_dump bits i : i < 8192 ->
@@ -110,8 +118,8 @@ Qed.
 Lemma bits_values_dump bits :
   bm_bits_values (bm_mem_of_bytes (map (bm_mget bits) bm_byte_idx)) = bm_bits_values bits.
 Proof.
-  unfold bm_bits_values. apply flat_map_ext_in. intros j Hj. apply in_byte_idx in Hj.
-  rewrite mget_of_dump by exact Hj. reflexivity.
+  rewrite !bits_values_alt. apply flat_map_ext_in'. intros j Hj. apply in_byte_idx in Hj.
+  unfold byte_list. rewrite mget_of_dump by exact Hj. reflexivity.
 Qed.
 
 Lemma popsum_dump bits : popsum (bm_mem_of_bytes (map (bm_mget bits) bm_byte_idx)) = popsum bits.
